@@ -124,6 +124,8 @@ kf("C02", "C02-workgroup-uniform-load-array-type", "workgroupUniformLoad(&w) wit
    ["C02|type-load|*OpLoad: result type array<u#,%#>## differs from the pointee type array<u#,%#>##|F1s/workgroupUniformLoad/array<u32, 4>/compute|*"])
 kf("C02", "C02-external-texture-query-size", "textureLoad on a texture_external under an ImageLoad bounds policy queries the plane size with OpImageQuerySize on a sampled, single-sampled 2D image (needs MS = 1 or Sampled = 0/2; OpImageQuerySizeLod is the instruction for sampled images)",
    ["C02|image-query-class|*OpImageQuerySize on a #D/#D/#D/Cube image needs MS*|corpus/texture-external|*bounds=*"])
+kf("C02", "C02-f16-push-constant-capability", "a var<push_constant> whose struct holds f16 members (`enable f16; struct PC { a: f16 } var<push_constant> pc: PC;`) declares Float16 and the 16-bit buffer capabilities but not StoragePushConstant16, which SPV_KHR_16bit_storage requires for 16-bit elements in the PushConstant storage class",
+   ["C02|capability|*PushConstant storage class requires capability StoragePushConstant#, which is not de*|F1s/type/push_constant/f16/compute|*"])
 kf("C02", "C02-atomic-f32-integer-opcode", "atomicSub/atomicMax/atomicMin on atomic<f32> (accepted by the front end) are emitted as the integer opcodes OpAtomicISub/OpAtomicUMax/OpAtomicUMin on a float pointee",
    ["C02|type-atomic|*pointee type f# is not an integer scalar|F1s/type/atomicf32/storage/atomic*/compute|*"])
 
